@@ -190,6 +190,27 @@ func grammarReplay(w *run.Worker, v *run.Viol, spans bool) {
 		return
 	}
 	str := func(k string) string { s, _ := v.Extra[k].(string); return s }
+	if spans && strings.HasPrefix(v.Sig, "span:law:") {
+		var lex [][2]int
+		for _, t := range reftok.Scan(src) {
+			lex = append(lex, [2]int{t.Start, t.End})
+		}
+		multi := map[string]bool{}
+		if ms, ok := v.Extra["multi_token_fields"].([]any); ok {
+			for _, m := range ms {
+				if s, ok := m.(string); ok {
+					multi[s] = true
+				}
+			}
+		}
+		if ms, ok := v.Extra["multi_token_fields"].([]string); ok {
+			for _, m := range ms {
+				multi[m] = true
+			}
+		}
+		spanLawsCore(w, src, lex, multi, stmts, func() map[string]any { return nil })
+		return
+	}
 	if got := describeLocked(stmts, false); got != str("expected_nospans") {
 		if !spans {
 			w.Fail(v.Sig, src, "tree differs\nwant "+str("expected_nospans")+"\ngot  "+got, nil)
@@ -285,6 +306,9 @@ func grammarCase(w *run.Worker, l *gen.Laid, spans bool, family string) {
 		return
 	}
 	var exp any = l.Tree
+	if spans && !spanLaws(w, l, stmts, extra) {
+		return
+	}
 	if ok, path := astx.EqualShift(exp, any(stmts), 0, true); !ok {
 		if !spans {
 			w.Fail("grammar:tree:"+pathSig(path), src, fmt.Sprintf("tree differs at %s\nwant %s\ngot  %s", path, describeLocked(l.Tree, true), describeLocked(stmts, true)), extra())
@@ -319,4 +343,135 @@ func grammarCase(w *run.Worker, l *gen.Laid, spans bool, family string) {
 			}
 		})
 	}
+}
+
+// spanLaws: laws about the recorded positions that hold for whatever tree the parser built (they do not
+// need the prescribed tree): every recorded span starts and ends on lexeme boundaries, every span field
+// except a nulls clause designates exactly one lexeme, a statement spans from its first to its last
+// lexeme, and the operators of a pipeline tile it from pipe to pipe.
+func spanLaws(w *run.Worker, l *gen.Laid, stmts []parser.Statement, extra func() map[string]any) bool {
+	var lex [][2]int
+	single := map[[2]int]bool{}
+	for _, lx := range l.Lexemes {
+		lex = append(lex, [2]int{lx.Start, lx.End})
+		single[[2]int{lx.Start, lx.End}] = true
+	}
+	// fields that cover several tokens by design (`sort by`, `nulls first`, ...): those of the prescribed tree
+	multi := map[string]bool{}
+	var names []string
+	astx.Spans(l.Tree, func(path string, x parser.Span) {
+		if x.IsValid() && x.End > x.Start && !single[[2]int{x.Start, x.End}] && !multi[pathSig(path)] {
+			multi[pathSig(path)] = true
+			names = append(names, pathSig(path))
+		}
+	})
+	return spanLawsCore(w, l.Source, lex, multi, stmts, func() map[string]any {
+		e := extra()
+		e["multi_token_fields"] = names
+		return e
+	})
+}
+
+type lexSpan struct{ Start, End int }
+
+func spanLawsCore(w *run.Worker, src string, lexemes [][2]int, multi map[string]bool, stmts []parser.Statement, extra func() map[string]any) bool {
+	l := struct{ Lexemes []lexSpan }{}
+	for _, x := range lexemes {
+		l.Lexemes = append(l.Lexemes, lexSpan{x[0], x[1]})
+	}
+	starts, ends, single := map[int]bool{}, map[int]bool{}, map[[2]int]bool{}
+	type group struct{ first, last int }
+	var groups []group
+	cur := group{-1, -1}
+	for i, lx := range l.Lexemes {
+		starts[lx.Start], ends[lx.End] = true, true
+		single[[2]int{lx.Start, lx.End}] = true
+		if src[lx.Start:lx.End] == ";" {
+			if cur.first >= 0 {
+				groups = append(groups, cur)
+			}
+			cur = group{-1, -1}
+			continue
+		}
+		if cur.first < 0 {
+			cur.first = i
+		}
+		cur.last = i
+	}
+	if cur.first >= 0 {
+		groups = append(groups, cur)
+	}
+	ok := true
+	for _, st := range stmts {
+		astx.Spans(st, func(path string, x parser.Span) {
+			if !ok || !x.IsValid() || x.End <= x.Start {
+				return
+			}
+			if x.End > len(src) || !starts[x.Start] || !ends[x.End] {
+				ok = false
+				w.Fail("span:law:not-on-token-boundary:"+pathSig(path), src, fmt.Sprintf("recorded span %s = %v does not start and end on token boundaries", path, x), extra())
+				return
+			}
+			if !single[[2]int{x.Start, x.End}] && !multi[pathSig(path)] {
+				ok = false
+				w.Fail("span:law:field-covers-several-tokens:"+pathSig(path), src, fmt.Sprintf("recorded span %s = %v = %q is not one token", path, x, src[x.Start:x.End]), extra())
+			}
+		})
+		if !ok {
+			return false
+		}
+	}
+	if len(groups) != len(stmts) {
+		return true // statement count is C07's and C15's business
+	}
+	for i, st := range stmts {
+		g := groups[i]
+		want := parser.Span{Start: l.Lexemes[g.first].Start, End: l.Lexemes[g.last].End}
+		var sp parser.Span
+		if !w.Try(src, func() { sp = st.Span() }) {
+			return false
+		}
+		if sp != want {
+			w.Fail("span:law:statement:"+astx.TypeName(st), src, fmt.Sprintf("statement %d: Span() = %v, its first to last token is %v = %q", i, sp, want, src[want.Start:want.End]), extra())
+			return false
+		}
+		te, isTab := st.(*parser.TabularExpr)
+		if !isTab {
+			continue
+		}
+		// top-level pipes of the statement
+		var pipes []int
+		depth := 0
+		for k := g.first; k <= g.last; k++ {
+			switch src[l.Lexemes[k].Start:l.Lexemes[k].End] {
+			case "(", "[":
+				depth++
+			case ")", "]":
+				depth--
+			case "|":
+				if depth == 0 {
+					pipes = append(pipes, k)
+				}
+			}
+		}
+		if len(pipes) != len(te.Operators) {
+			continue
+		}
+		for k, op := range te.Operators {
+			last := g.last
+			if k+1 < len(pipes) {
+				last = pipes[k+1] - 1
+			}
+			want := parser.Span{Start: l.Lexemes[pipes[k]].Start, End: l.Lexemes[last].End}
+			var sp parser.Span
+			if !w.Try(src, func() { sp = op.Span() }) {
+				return false
+			}
+			if sp != want {
+				w.Fail("span:law:operator:"+astx.TypeName(op), src, fmt.Sprintf("operator %d (%s): Span() = %v, from its pipe to the token before the next pipe is %v = %q", k, astx.TypeName(op), sp, want, src[want.Start:want.End]), extra())
+				return false
+			}
+		}
+	}
+	return true
 }
